@@ -39,7 +39,20 @@ TrMixed ==
     /\ Ln.out1 = solo["h"]                   \* ... for both groups
     /\ UNCHANGED <<vars, solo, have>>
 
-TrNext == TrReset \/ TrSolo \/ TrMixed
+(* Delete-group: after a DeleteGroup message the group's machine is a fresh one, so *)
+(* the outputs of one run  part1 ; delete ; part2  are  solo(part1) ++ solo(part2). *)
+TrSoloPart ==
+    /\ IsEv("SoloPart")
+    /\ solo' = [solo EXCEPT ![GName(Ln.part - 1)] = Ln.out]
+    /\ have' = have \cup {GName(Ln.part - 1)}
+    /\ UNCHANGED vars
+TrDeleteRun ==
+    /\ IsEv("DeleteRun") /\ have = Groups
+    /\ Len(Ln.out) = Len(solo["g"]) + Len(solo["h"])
+    /\ Ln.out = solo["g"] \o solo["h"]
+    /\ UNCHANGED <<vars, solo, have>>
+
+TrNext == TrReset \/ TrSolo \/ TrMixed \/ TrSoloPart \/ TrDeleteRun
 TrSpec == TrInit /\ [][TrNext]_tvars
 HW == HWMark(l)
 Accepted == HWAccepted
